@@ -773,6 +773,39 @@ def api_requests(data, eq):
     return out
 
 
+def planning_cli(bench, data, suffix='json'):
+    """the command-line entry point: cli_examples.path_requests_run([topology, services, -e library, -o result.<suffix>])
+    on files written for the occasion; returns what it saved (the parsed JSON document, or the CSV text)"""
+    import contextlib
+    import io
+    import shutil
+    import tempfile
+    from pathlib import Path
+    import gnpy.tools.json_io as jio
+    import gnpy.tools.cli_examples as C
+    from harness.tlc import BUILD
+    if BENCH_EQPT[bench] != 'ex':
+        raise KeyError('command-line runs use the example-data library (default extra configs)')
+    BUILD.mkdir(exist_ok=True)
+    tmp = Path(tempfile.mkdtemp(prefix='cli-', dir=BUILD))
+    try:
+        ej = jio.load_json(EX / 'eqpt_config.json')
+        ej['Transceiver'] = ej['Transceiver'] + copy.deepcopy(VERIF_TRX)
+        jio.save_json(ej, tmp / 'eqpt.json')
+        jio.save_json(_topo(split_bench(bench)[0]), tmp / 'topology.json')
+        jio.save_json(data, tmp / 'services.json')
+        out = tmp / f'result.{suffix}'
+        with contextlib.redirect_stdout(io.StringIO()), contextlib.redirect_stderr(io.StringIO()):
+            try:
+                C.path_requests_run([str(tmp / 'topology.json'), str(tmp / 'services.json'), '-e', str(tmp / 'eqpt.json'),
+                                     '-o', str(out)])
+            except SystemExit as ex:
+                raise RuntimeError(f'ServiceError: command line exited with {ex.code}')
+        return jio.load_json(out) if suffix == 'json' else out.read_text(encoding='utf-8')
+    finally:
+        shutil.rmtree(tmp, ignore_errors=True)
+
+
 def planning_api(network, eq, data):
     """the steps of worker_utils.planning() on requests built through the API (module attributes looked up at call
     time, so recorders and in-process mutants apply)"""
@@ -795,7 +828,7 @@ REFUSALS = ('ServiceError', 'DisjunctionError')       # the code's legitimate "I
 
 def run_batch(bench, data, name, want_csv=True, via='json', warm=None):
     """planning() on a fresh network under freshly set SimParams, recorded.  via='api': same steps, requests built with
-    PathRequest(**params).  Returns a Run with: inputs, entries (per response entry: outcome `o` assembled from the
+    PathRequest(**params); via='cli': the command-line entry point on files, judged on the documents it SAVES.  Returns a Run with: inputs, entries (per response entry: outcome `o` assembled from the
     captures, projected response entry `e`, CSV row `row`), netB/netA and simB/simA digests, response (raw), exc"""
     from gnpy.tools.worker_utils import planning
     from gnpy.tools.json_io import results_to_json
@@ -834,12 +867,16 @@ def _run_batch(bench, data, name, want_csv, via, planning, results_to_json, _pat
     rec = PlanRecorder()
     try:
         with rec:
-            if via == 'api':
+            if via == 'cli':
+                response = response2 = planning_cli(bench, copy.deepcopy(data), 'json')     # the document it SAVED
+                rqs = list(rec._keep)                                                       # the request table it used
+            elif via == 'api':
                 _, _, _, rqs, _, result = planning_api(net, eq, copy.deepcopy(data))
             else:
                 _, _, _, rqs, _, result = planning(net, eq, copy.deepcopy(data))
-        response = results_to_json(result)
-        response2 = _path_result_json(result)
+        if via != 'cli':
+            response = results_to_json(result)
+            response2 = _path_result_json(result)
     except Exception as ex:                                           # noqa: an exception here is reported by the caller
         import traceback
         run.exc = f'{type(ex).__name__}: {ex}'
@@ -861,7 +898,11 @@ def _run_batch(bench, data, name, want_csv, via, planning, results_to_json, _pat
     rows = []
     if want_csv:
         try:
-            rows = csv_rows(response, eq)
+            if via == 'cli':                      # the CSV the command line writes (a second invocation, -o result.csv)
+                text = planning_cli(bench, copy.deepcopy(data), 'csv')
+                rows = [proj_row(r) for r in csv.DictReader(io.StringIO(text))]
+            else:
+                rows = csv_rows(response, eq)
         except Exception as ex:                                       # noqa: reported by the caller as a violation
             run.csv_exc = f'{type(ex).__name__}: {ex}'
     by_id = {r['id']: r for r in run.inputs}
